@@ -59,7 +59,10 @@ def jobs(tier):
                            functions=["vnaproperty_quote_key", "scan"],
                            bound="key bytes %s (one representative per character class of the scanner)" % (c,),
                            timeout=300))
-    for c in (0, 1, 2, 3, 4, 6, 7, 8, 9, 10):     # case 5 (list creation through the parser: "lst[1]=b") does not finish in 1500 s: not covered
+    J.append(V.Job("map_compare_keys", H, "h_map_compare", [], unwind=4, shim=False, kind="proof", canary=True,
+                   functions=["map_compare_keys"], bound="none: both 32-bit hash values and both key bytes symbolic; loop-free",
+                   timeout=200, cbmc_flags=["--no-leak"]))
+    for c in (0, 1, 2, 3, 4, 6, 7, 8, 9, 10, 11, 12):     # case 5 (list creation through the parser: "lst[1]=b") does not finish in 1500 s: not covered
         J.append(V.Job("descriptor.case%d" % c, H, "h_descriptor", [], defines=["-DH_DESCRIPTOR", "-DDESC_CASE=%d" % c],
                        unwind=12, shim=False, kind="bounded", canary=(c == 0),
                        functions=["vnaproperty_vset", "vnaproperty_vget", "vnaproperty_vget_subtree", "vnaproperty_vdelete",
